@@ -126,7 +126,50 @@ func init() {
 		rec(append([]byte{}, args[2]...), n)
 		return args, out
 	})
+	// CompactJSON on ANY bytes; a run-time panic is the observable PANIC (compared with the model's Crash)
+	RegisterImpl("C01.compact_raw", func(args [][]byte) ([][]byte, []byte) {
+		return args, c01compactRaw(args[0], true)
+	})
+	// [alphabet; n; prefix]: every text (valid or not) with what CompactJSON makes of it
+	RegisterImpl("C01.enum_compact", func(args [][]byte) ([][]byte, []byte) {
+		n, _ := strconv.Atoi(string(args[1]))
+		var out []byte
+		var rec func(t []byte, n int)
+		rec = func(t []byte, n int) {
+			out = append(append(out, t...), '>')
+			out = append(append(out, c01compactRaw(t, false)...), '\n')
+			if n == 0 {
+				return
+			}
+			for _, c := range args[0] {
+				rec(append(t[:len(t):len(t)], c), n-1)
+			}
+		}
+		rec(append([]byte{}, args[2]...), n)
+		return args, out
+	})
 	RegisterProp("C01", genC01)
+}
+
+func c01compactRaw(in []byte, tagged bool) (res []byte) {
+	defer func() {
+		if r := recover(); r != nil {
+			if tagged {
+				res = B("PANIC")
+			} else {
+				res = B("!P")
+			}
+		}
+	}()
+	cp := append([]byte{}, in...)
+	out := gmsl.CompactJSON(cp, nil)
+	if !bytes.Equal(cp, in) {
+		return B("INPUT-MODIFIED")
+	}
+	if tagged {
+		return append(B("ok:"), out...)
+	}
+	return out
 }
 
 // ---------------------------------------------------------------- values and presentations
@@ -610,12 +653,14 @@ func genC01(c *Ctx) {
 		c.Run("C01.assume_valid", Args(t), "C01.canonical", "", "fixed")
 		c.Run("C01.compact_sort", Args(t), "C01.canonical", "", "fixed")
 		c.Run("C01.twice", Args(t), "C01.const_same", "", "fixed")
+		c.Run("C01.compact_raw", Args(t), "C01.compact_raw", "C01.prop.compact_safe", "fixed/compact-raw")
 		allVersions(t, "fixed")
 		c.Count("fixed texts")
 	}
 	// validity only: lone surrogates (outside the domain of the byte-level comparison)
-	for _, t := range []string{`"\ud800"`, `"\udc00"`, `"\ud800x"`, `"\ud800\u0041"`, `"\udc00\ud800"`, `{"\ud800":1}`} {
+	for _, t := range []string{`"\ud800"`, `"\udc00"`, `"\ud800x"`, `"\ud800\u0041"`, `"\udc00\ud800"`, `{"\ud800":1}`, `"\udbff"`, `"\ud800\n"`, `"\ud800\\"`, `"\ud800\""`, `["\udfff",-0]`, `"\ud800\ud800\udc00"`, `"\ud83d\ud83d"`} {
 		c.Run("C01.valid", Args(t), "C01.valid", "", "lone-surrogate(validity only)")
+		c.Run("C01.compact_raw", Args(t), "C01.compact_raw", "C01.prop.compact_safe", "lone-surrogate/compact-raw")
 	}
 
 	// ---- 1. numbers at every position, all versions
@@ -656,6 +701,7 @@ func genC01(c *Ctx) {
 			c.Count("pairs: perturbed value")
 		}
 		c.Run("C01.assume_valid", Args(t2), "C01.canonical", "", "random/assume-valid")
+		c.Run("C01.compact_raw", Args(t1), "C01.compact_raw", "C01.prop.compact_safe", "random/compact-raw")
 		if i%4 == 0 {
 			c.Run("C01.compact_sort", Args(t1), "C01.canonical", "", "random/compact+sort")
 			c.Run("C01.twice", Args(t2), "C01.const_same", "", "random/twice")
@@ -698,6 +744,9 @@ func genC01(c *Ctx) {
 				m[p] = []byte(`{}[],:"\u0-.eE 1a`)[r.Intn(17)]
 			}
 			c.Run("C01.valid", [][]byte{m}, "C01.valid", "", "malformed/validity")
+			if string(c.Run("C01.compact_raw", [][]byte{m}, "C01.compact_raw", "C01.prop.compact_safe", "malformed/compact-raw")) == "PANIC" {
+				c.Count("compact_raw: panics (malformed stream)")
+			}
 			if gjson.ValidBytes(m) && c01loneSurrogate(m) {
 				c.Count("malformed: still valid but lone surrogate (validity only)")
 				continue
@@ -742,6 +791,68 @@ func genC01(c *Ctx) {
 		one(t1, "key-order")
 		c.Run("C01.pair", Args(t1, t2), "C01.pair", "C01.prop.unique", "key-order")
 		c.Count("key-order objects")
+	}
+
+	// ---- 4b. CompactJSON on its own, valid or not: the index reads at the end of the input
+	rawFixed := []string{"-", " -", "[-", "[1,-", "-0", "-0 ", "1e-", "e-0", "E-0x", "--", "-\"", `"\`, `"a\`, `"\\`, `"\\\`, `"\u`, `"\u1`, `"\u12`, `"\u123`, `"\u1234`,
+		`"\ud800`, `"\ud800\`, `"\ud800\u`, `"\ud800\ud`, `"\ud800\udc0`, `"\ud800\udc00`, `"\ud800\udc00"`, `"\ud800x`, `"\ud800\x`, `"\ud800\n"`, `"\udc00`, `"\udc00\`, `"\udfff\u`,
+		`"\udbff`, `"\uDBFF\`, `"\ue000`, `"\ud7ff`, `"\ud800\ud800"`, `"\udc00\udc00"`, `"\ud800\u0041"`, `"\u0000`, `"\u001f`, `"\u0020`, `"\u0022`, `"\u005c`, `"\u005C\`, `"\u00/0"`,
+		`"\uzzzz"`, `"\u@@@@"`, "\"\\u\x60\x60\x60\x60\"", "\"\\u\x00\x00\x00\x00\"", "\"\\u\xff\xff\xff\xff\"", `"\u000g"`, `"\u00G0"`, `"\u:;<="`, `"\uPQRS"`, `"\upqrs"`, `"\u 1 2"`, `"\u0 0 "`, `"\uD8@0\`, `"\uMH00x`,
+		`"\/`, `"\/"`, `"\"`, `"\""`, `"`, `""`, `"""`, `"a"-`, `"a"-0`, `{"a":-}`, `"-"`, `"\-`, "\x00-", "-\x00", "\x7f", "\xff-", "\"\xff\\", "\"\\\xff", "\"\\u\xff"}
+	for _, t := range rawFixed {
+		c.Run("C01.compact_raw", Args(t), "C01.compact_raw", "C01.prop.compact_safe", "compact-raw/fixed")
+		c.Count("compact_raw: hand-picked ends of input")
+	}
+	// every truncation of texts that exercise all branches of compactUnicodeEscape
+	for _, t := range []string{`{"k\ud83d\ude00\u0007\u0022\u005c\u00e9\n\/":[-0,-0.5,1e-05,"\udc00\ud800\u12"],"-":-1}`, `["\ud800\udc00\udbff\udfff\ud800x\ud800\u0041\ud800\\",-0]`} {
+		for k := 0; k <= len(t); k++ {
+			c.Run("C01.compact_raw", Args(t[:k]), "C01.compact_raw", "C01.prop.compact_safe", "compact-raw/truncation")
+		}
+		c.Count("compact_raw: all truncations of a branch-covering text")
+	}
+	// random texts over the bytes that steer the index arithmetic
+	steer := []byte(`"\\uuddDD88990cCfFbB-0 e.x`)
+	for i := 0; i < c.Scale(3000, 30000); i++ {
+		l := r.Intn(16)
+		m := make([]byte, l)
+		for k := range m {
+			m[k] = steer[r.Intn(len(steer))]
+		}
+		if r.Intn(2) == 0 {
+			m = append([]byte{'"'}, m...)
+		}
+		if string(c.Run("C01.compact_raw", [][]byte{m}, "C01.compact_raw", "C01.prop.compact_safe", "compact-raw/steered")) == "PANIC" {
+			c.Count("compact_raw: panics (steered random bytes)")
+		} else {
+			c.Count("compact_raw: returns (steered random bytes)")
+		}
+	}
+	// arbitrary bytes after \u: the bit trick on garbage
+	for i := 0; i < c.Scale(1200, 10000); i++ {
+		m := []byte(`"\u`)
+		for k := 0; k < 4; k++ {
+			switch r.Intn(3) {
+			case 0:
+				m = append(m, byte(r.Intn(256)))
+			case 1:
+				m = append(m, "0123456789abcdefABCDEF"[r.Intn(22)])
+			default:
+				m = append(m, "/:@G\x60g OoPp"[r.Intn(11)])
+			}
+		}
+		m = append(m, []byte(`\udc00"`)[:r.Intn(8)]...)
+		c.Run("C01.compact_raw", [][]byte{m}, "C01.compact_raw", "C01.prop.compact_safe", "compact-raw/hex-garbage")
+		c.Count("compact_raw: arbitrary bytes in the escape")
+	}
+	// all texts (valid or not) over the alphabet up to length 4 (quick) / 5 (thorough)
+	{
+		alpha := `{}[],:"\u01-.eEa `
+		cd := c.Scale(4, 5)
+		c.Run("C01.enum_compact", Args(alpha, "1", ""), "C01.enum_compact", "", "compact-raw/exhaustive")
+		for _, a := range []byte(alpha) {
+			c.Run("C01.enum_compact", Args(alpha, strconv.Itoa(cd-1), string([]byte{a})), "C01.enum_compact", "", "compact-raw/exhaustive")
+		}
+		c.Count(fmt.Sprintf("compact_raw exhaustive: all texts over %d symbols up to length %d", len(alpha), cd))
 	}
 
 	// ---- 5. bounded-exhaustive: all texts over the alphabet up to length N
